@@ -259,6 +259,11 @@ def gen_scenario(seed, tier="quick"):
                     "hs": rng.randint(0, 2 ** 31 - 1),
                 }
             )
+        if rng.random() < 0.06:
+            # beyond-statement probes P5 (tallied, never judged): Link() twice on one linker;
+            # a module file missing at link time
+            steps.append({"op": "probe", "gen": gno, "kind": rng.choice(["relink", "missing-module"]),
+                          "victim": rng.randrange(nm)})
         if sw["dup"] and gno == 0:
             kinds = ["func"]
             if globs:
